@@ -5,17 +5,23 @@ import tlc
 CONFIGS = {
     # which: (quick, thorough) = (N, Dens, Types)
     'conv': ((6, '{1, 2, 3}', '{"A", "B", "A2", "ApB", "D"}'), (12, '{1, 2, 3, 4, 5}', '{"A", "B", "AB", "A2", "ApB", "DpB", "Bi", "D", "E"}')),
-    'add': ((1, '{1, 2}', '{"A", "ApB"}'), (2, '{1, 2, 3}', '{"A", "B", "A2", "ApB"}')),
+    # thorough: two configurations (the type A has ten units by now: with |n| <= 2 and three denominators its cube of
+    # register contents alone has tens of millions of states)
+    'add': ((1, '{1, 2}', '{"A", "ApB"}'), [(2, '{1, 2, 3}', '{"B", "A2", "ApB"}'), (1, '{1, 2, 3}', '{"A", "B"}')]),
     'ord': ((1, '{1, 2}', '{"A", "ApB", "D"}'), (3, '{1, 2, 3}', '{"A", "B", "A2", "ApB", "D"}')),
     'round': ((24, '{1, 2, 3, 16}', '{"D", "E", "Money"}'), (40, '{1, 2, 3, 5, 16}', '{"D", "E", "Money"}')),
 }
 
 
 def laws(ctx, which):
-    n, dens, types = CONFIGS[which][0 if ctx.tier == 'quick' else 1]
-    cfg = open(tlc.SPEC_DIR + '/cfg/CalcLaws.cfg').read()
-    cfg = cfg.replace('@N@', str(n)).replace('@DENS@', dens).replace('@TYPES@', types).replace('@WHICH@', which)
-    r = tlc.run('CalcLaws', cfg_text=cfg, tag='CalcLaws-' + which, timeout=3000)
-    ctx.add_tlc(r, 'CalcLaws[%s]: laws over all register contents, |n|<=%d, denominators %s, types %s' % (
-        which, n, dens, types), exhaustive=True)
+    confs = CONFIGS[which][0 if ctx.tier == 'quick' else 1]
+    if isinstance(confs, tuple):
+        confs = [confs]
+    r = None
+    for (n, dens, types) in confs:
+        cfg = open(tlc.SPEC_DIR + '/cfg/CalcLaws.cfg').read()
+        cfg = cfg.replace('@N@', str(n)).replace('@DENS@', dens).replace('@TYPES@', types).replace('@WHICH@', which)
+        r = tlc.run('CalcLaws', cfg_text=cfg, tag='CalcLaws-' + which, timeout=3000)
+        ctx.add_tlc(r, 'CalcLaws[%s]: laws over all register contents, |n|<=%d, denominators %s, types %s' % (
+            which, n, dens, types), exhaustive=True)
     return r
